@@ -329,14 +329,18 @@ class SFTPServer(BaseSFTP, SubsystemHandler):
 
         sum_out = bytes()
         offset = start
-        while offset < start + length:
+        eof = False
+        while offset < start + length and not eof:
             blocklen = min(block_size, start + length - offset)
-            # don't try to read more than about 64KB at a time
-            chunklen = min(blocklen, 65536)
             count = 0
             hash_obj = alg()
             while count < blocklen:
-                data = f.read(offset, chunklen)
+                # don't try to read more than about 64KB at a time
+                data = f.read(offset, min(blocklen - count, 65536))
+                if data == SFTP_EOF or data == b"":
+                    # the requested range ends at end of file
+                    eof = True
+                    break
                 if not isinstance(data, bytes):
                     self._send_status(
                         request_number, data, "Unable to hash file"
@@ -344,8 +348,9 @@ class SFTPServer(BaseSFTP, SubsystemHandler):
                     return
                 hash_obj.update(data)
                 count += len(data)
-                offset += count
-            sum_out += hash_obj.digest()
+                offset += len(data)
+            if count > 0:
+                sum_out += hash_obj.digest()
 
         msg = Message()
         msg.add_int(request_number)
